@@ -70,6 +70,14 @@ theorem resize_eq (dr : Bool) (k : Nat) (hc : c.lock n) (he : e.lock 1) (hs : c.
 theorem extend_eq (dr : Bool) (c : Cols) (es : List Cols) : extend dr c es = Model.extend c es := by
   simp [extend, methods_eq, extend_tie]
 
+/-- `collect()` -/
+theorem fromIter_eq (dr : Bool) (empty : Cols) (es : List Cols) (hp : (Model.extend empty es).panicked = false) :
+    fromIter dr empty es = Model.extend empty es := by
+  have h := from_iter_tie dr empty empty (truncate dr) swapWhole es 2 hp
+  unfold fromIter
+  rw [methods_eq, h]
+  rw [extend_shape es empty, hp]
+
 /-- `extend_from_slice`: contents and panic flag (the clone events are the same up to their order) -/
 theorem extendFromSlice_core (dr : Bool) (c d : Cols) :
     core (extendFromSlice dr c d) = core (Model.extendFromSlice c d) := by
